@@ -144,9 +144,10 @@ structure Ext (st st' : St) : Prop where
   next_le : st.next ≤ st'.next
   rc_ext : ∀ n ∈ st.rcrefs, n ∈ st'.rcrefs
   objs_ext : ∀ ob ∈ st.objs, ob ∈ st'.objs
+  new_ids : ∀ ob ∈ st'.objs, ob ∈ st.objs ∨ st.next ≤ ob.id
 
 theorem Ext.refl (st : St) : Ext st st :=
-  ⟨fun _ _ h => h, rfl, fun _ _ => rfl, Nat.le_refl _, fun _ h => h, fun _ h => h⟩
+  ⟨fun _ _ h => h, rfl, fun _ _ => rfl, Nat.le_refl _, fun _ h => h, fun _ h => h, fun _ h => Or.inl h⟩
 
 theorem Ext.trans {a b c : St} (h1 : Ext a b) (h2 : Ext b c) : Ext a c where
   map_ext := fun o n h => h2.map_ext o n (h1.map_ext o n h)
@@ -156,6 +157,10 @@ theorem Ext.trans {a b c : St} (h1 : Ext a b) (h2 : Ext b c) : Ext a c where
   next_le := Nat.le_trans h1.next_le h2.next_le
   rc_ext := fun n h => h2.rc_ext n (h1.rc_ext n h)
   objs_ext := fun ob h => h2.objs_ext ob (h1.objs_ext ob h)
+  new_ids := fun ob h => by
+    rcases h2.new_ids ob h with hb | hb
+    · exact h1.new_ids ob hb
+    · exact Or.inr (Nat.le_trans h1.next_le hb)
 
 theorem Inv.init (src : Src) (n : Nat) : Inv src (St.init n) where
   vals_lt := by intro o k h; simp [St.init] at h
@@ -184,6 +189,7 @@ theorem Ext.push_pop {st st1 : St} (o : Nat) (h : Ext (st.push o) st1) : Ext st 
   next_le := h.next_le
   rc_ext := h.rc_ext
   objs_ext := h.objs_ext
+  new_ids := h.new_ids
 
 /-- allocation of the copy of a source object that has no memo entry yet -/
 theorem Inv.alloc {src : Src} {st : St} (h : Inv src st) (old : Nat) (node : Node) (k : Kind) (ks : List Nat)
@@ -266,6 +272,11 @@ theorem Inv.alloc {src : Src} {st : St} (h : Inv src st) (old : Nat) (node : Nod
     · simp [St.alloc]
     · intro n hn; simp only [St.alloc]; split <;> simp [hn]
     · intro ob hob; simp [St.alloc, hob]
+    · intro ob hob
+      simp only [St.alloc, List.mem_cons] at hob
+      rcases hob with rfl | hob
+      · exact Or.inr (Nat.le_refl _)
+      · exact Or.inl hob
   · simp [St.alloc, lk_cons]
 
 
@@ -330,7 +341,7 @@ theorem cloneRef_spec (src : Src) : ∀ (f : Nat), RefSpec src (cloneRef f src) 
                       · exact ⟨e.tgt, hext.map_ext _ _ hlk⟩
                       · exact hinv.rc_sub m hm⟩
                 · exact ⟨hext.map_ext, hext.pend_eq, hext.pend_keep, hext.next_le,
-                    fun m hm => by simp [hext.rc_ext m hm], hext.objs_ext⟩
+                    fun m hm => by simp [hext.rc_ext m hm], hext.objs_ext, hext.new_ids⟩
                 · intro n' hn
                   simp only [Out.ok.injEq] at hn
                   rw [← hn]
